@@ -11,6 +11,7 @@ whose self roots contain P<i> / G is an effect on that parameter / on global sta
 the form 'modifies nothing reachable from the arguments' for all inputs.  It also collects the non-deterministic
 primitives a function can reach (iteration over sets, hash, id, random, time, environment)."""
 import ast
+import re
 from . import source as S
 
 MUTATORS = {'append', 'extend', 'add', 'pop', 'remove', 'insert', 'clear', 'update', 'sort', 'reverse', 'setdefault',
@@ -210,6 +211,7 @@ class _FuncAnalysis:
         self.calls = set()
         self.set_vars = set()
         self.globals_declared = set()
+        self.local_types = {}
 
     # ---- values
     def val(self, e):
@@ -339,6 +341,88 @@ class _FuncAnalysis:
             o = self.env[target_expr.id]
             self.env[target_expr.id] = (o[0], o[1] | stored[0] | stored[1])
 
+    def type_of(self, e):
+        """class name of an expression when it is evident from annotations (parameters, self fields set from annotated
+        constructor parameters, return annotations of resolved calls); None = unknown"""
+        def clean(ann):
+            if ann is None:
+                return None
+            t = ast.unparse(ann).replace('"', '').replace("'", '')
+            m = re.match(r'^(?:Optional\[)?([A-Za-z_][A-Za-z0-9_.]*)\]?$', t)
+            return m.group(1).split('.')[-1] if m else None
+
+        def elem(ann):
+            if ann is None:
+                return None
+            t = ast.unparse(ann).replace('"', '').replace("'", '')
+            m = re.match(r'^(?:list|List|Sequence|Iterable)\[([A-Za-z_][A-Za-z0-9_.]*)\]$', t)
+            return m.group(1).split('.')[-1] if m else None
+        if isinstance(e, ast.Name):
+            if e.id in self.local_types:
+                return self.local_types[e.id]
+            for a in self.fi.node.args.args + self.fi.node.args.kwonlyargs:
+                if a.arg == e.id:
+                    if a.arg == 'self' and self.fi.cls is not None:
+                        return self.fi.cls.name
+                    return clean(a.annotation)
+            return None
+        if isinstance(e, ast.Attribute) and isinstance(e.value, ast.Name) and e.value.id == 'self' and self.fi.cls is not None:
+            # self.x assigned in __init__ from an annotated parameter, or annotated there
+            init = self.an.index.lookup_method(self.fi.cls, '__init__')
+            if init is not None:
+                anns = {a.arg: a.annotation for a in init.node.args.args}
+                for st in ast.walk(init.node):
+                    if isinstance(st, ast.Assign) and len(st.targets) == 1 and isinstance(st.targets[0], ast.Attribute) \
+                            and st.targets[0].attr == e.attr and isinstance(st.value, ast.Name) and st.value.id in anns:
+                        return clean(anns[st.value.id])
+                    if isinstance(st, ast.AnnAssign) and isinstance(st.target, ast.Attribute) and st.target.attr == e.attr:
+                        return clean(st.annotation)
+            return None
+        if isinstance(e, ast.Attribute) and e.attr in ('root', 'parent'):
+            return 'Feature'
+        if isinstance(e, ast.Attribute) and e.attr in ('ast', '_ast'):
+            return 'AST'
+        if isinstance(e, ast.Call) and isinstance(e.func, ast.Name) and e.func.id == 'cast' and e.args:
+            return clean(e.args[0])
+        return None
+
+    def infer_type(self, e):
+        t = self.type_of(e)
+        if t is not None:
+            return t
+        if isinstance(e, ast.Call):
+            if isinstance(e.func, ast.Name):
+                r = self.an.index.resolve(self.fi.module, e.func.id)
+                if r is not None and r[0] == 'class':
+                    return r[1].name
+                if r is not None and r[0] == 'func' and r[1].node.returns is not None:
+                    return self.type_of(ast.Call(func=ast.Name(id='cast', ctx=ast.Load()), args=[r[1].node.returns], keywords=[]))
+            if isinstance(e.func, ast.Attribute):
+                rt = self.type_of(e.func.value)
+                ci = self.an.index.find_class(rt) if rt else None
+                mi = self.an.index.lookup_method(ci, e.func.attr) if ci else None
+                if mi is not None and mi.node.returns is not None:
+                    return self.type_of(ast.Call(func=ast.Name(id='cast', ctx=ast.Load()), args=[mi.node.returns], keywords=[]))
+        return None
+
+    def elem_type(self, it):
+        """element class of an iterable expression, from return annotations / known list fields"""
+        if isinstance(it, ast.Attribute):
+            return {'relations': 'Relation', 'children': 'Feature', 'ctcs': 'Constraint', 'attributes': 'Attribute'}.get(it.attr)
+        if isinstance(it, ast.Call) and isinstance(it.func, ast.Attribute):
+            rt = self.type_of(it.func.value)
+            ci = self.an.index.find_class(rt) if rt else None
+            mi = self.an.index.lookup_method(ci, it.func.attr) if ci else None
+            if mi is None:
+                cands = {x.fid: x for x in self.an.by_method.get(it.func.attr, [])}
+                if len(cands) == 1:
+                    mi = list(cands.values())[0]
+            if mi is not None and mi.node.returns is not None:
+                t = ast.unparse(mi.node.returns).replace('"', '').replace("'", '')
+                m = re.match(r'^(?:list|List)\[([A-Za-z_][A-Za-z0-9_.]*)\]$', t)
+                return m.group(1).split('.')[-1] if m else None
+        return None
+
     def stringy(self, e):
         if isinstance(e, ast.JoinedStr) or (isinstance(e, ast.Constant) and isinstance(e.value, str)):
             return True
@@ -447,8 +531,19 @@ class _FuncAnalysis:
                 own = self.an.index.lookup_method(self.fi.cls, m)
                 if own is not None:
                     cands = [own]
-            if isinstance(base, ast.Call) and isinstance(base.func, ast.Name) and base.func.id == 'super':
-                cands = [x for x in cands if x.cls is not self.fi.cls]
+            elif isinstance(base, ast.Call) and isinstance(base.func, ast.Name) and base.func.id == 'super' and self.fi.cls is not None:
+                cands = []
+                for c in self.an.index.mro(self.fi.cls)[1:]:
+                    if m in c.methods:
+                        cands = [c.methods[m]]
+                        break
+            elif len({x.cls.name for x in cands if x.cls}) > 1:
+                t = self.infer_type(base)
+                if t is not None:
+                    ci = self.an.index.find_class(t)
+                    own = self.an.index.lookup_method(ci, m) if ci else None
+                    if own is not None:
+                        cands = [own]
             if m in MUTATORS and not cands:
                 stored = None
                 if argvals:
@@ -576,6 +671,11 @@ class _FuncAnalysis:
                     self.bind(t, v)
                     if value is not None and self.is_set_expr(value):
                         self.set_vars.add(t.id)
+                    ty = self.infer_type(value) if value is not None else None
+                    if isinstance(st, ast.AnnAssign) and st.annotation is not None and ty is None:
+                        ty = self.type_of(ast.Call(func=ast.Name(id='cast', ctx=ast.Load()), args=[st.annotation], keywords=[]))
+                    if ty is not None and t.id not in self.local_types:
+                        self.local_types[t.id] = ty
                 elif isinstance(t, ast.Attribute):
                     s, c = self.val(t.value)
                     roots = s - {'fresh'}
@@ -610,6 +710,10 @@ class _FuncAnalysis:
             s, c = self.val(st.iter)
             self.note_iteration(st.iter)
             self.bind(st.target, below((s, c)))
+            if isinstance(st.target, ast.Name):
+                et = self.elem_type(st.iter)
+                if et is not None and st.target.id not in self.local_types:
+                    self.local_types[st.target.id] = et
             self.visit_body(st.body)
             self.visit_body(st.orelse)
             return
